@@ -35,7 +35,8 @@ import props  # noqa: E402
 GOENV = dict(os.environ, GOFLAGS="-mod=mod", GOPROXY="off", GOSUMDB="off", GOTOOLCHAIN="local",
              CGO_ENABLED=os.environ.get("CGO_ENABLED", "1"))
 
-ALLOWED_AXIOMS = set()  # every property theorem is expected to be closed
+ALLOWED_AXIOMS = set()
+PREMISES = {}  # filled by eval_cases: on how many explored histories the premises of the history theorems hold  # every property theorem is expected to be closed
 
 
 class Broken(Exception):
@@ -166,6 +167,11 @@ def eval_cases(pid, wdir):
             raise Broken("cannot parse model evaluation output of %s" % f, out[-2000:])
         body = m.group(1).strip()
         idx = [int(x) for x in re.findall(r"\d+", body)]
+        # optional: premise counts of the history-level theorems on this shard's cases
+        pm = re.search(r"P\s*=\s*\(\s*(\d+)(?:%N)?\s*,\s*(\d+)(?:%N)?\s*,\s*(\d+)(?:%N)?\s*,\s*(\d+)(?:%N)?\s*\)", out)
+        if pm:
+            for j, name in enumerate(("histories", "hist_ok", "no_setapp", "no_raw_nft_send")):
+                PREMISES[name] = PREMISES.get(name, 0) + int(pm.group(j + 1))
         return [k * shard + i for i in idx]
 
     mism = []
@@ -509,6 +515,8 @@ def write_evidence(pid, cfg, tier, seed, assum, rep, ncases, nshards, mism, know
         cov["coqchk_tail"] = coqchk[-1500:]
     if scan:
         cov["site_scan"] = scan
+    if PREMISES:
+        cov["history_theorem_premises_on_explored_histories"] = dict(PREMISES, note="evaluated inside coqc by the boolean checkers of Harness/AppPremises.v (sound w.r.t. hist_ok / anop_noset / no_raw_nft_send); histories that use harness-only capabilities (raw sends, direct application writes) are expected to fail them")
     if srcmap:
         cov["modelled_source"] = srcmap
     if searched:
